@@ -480,7 +480,15 @@ class MaskMonitor(Monitor):
             return
         sparams = bparams(sig)
         if len(set(names)) != len(names):
-            ctx.count('C03.skipped_duplicate_names')
+            # one keyword cannot be passed twice: sig "could not be passed those arguments at all"
+            ctx.count('C03.duplicate_names')
+            ctx.evaluated()
+            if ok and point == 'mask':
+                ctx.violation('C03', 'MaskMonitor', 'mask-accepts-duplicate-name',
+                              'mask returns although one name is listed twice (no call can pass a keyword twice)',
+                              {'sig': show_params(sparams), 'n': n, 'names': list(names), 'result': show(value)},
+                              replay_alg('mask', [full_params(sig)], n=n, names=list(names),
+                                         **_mask_call_info(point, args, kwargs)[3]))
             return
         po_names = {x[0] for x in sparams if x[1] == PO}
         if po_names & set(names):
